@@ -6,4 +6,5 @@ def check(ctx, rep):
     rxr.rx_3_4(ctx, rep)
     rxr.rx_11(ctx, rep)
     rxr.tree_8(ctx, rep)
+    rxr.rx_10(ctx, rep)
     rep.note('Not decided: the positions themselves (numeric).')
